@@ -155,3 +155,17 @@ Section KWP.
     let n := (length P / 8)%nat in
     W_rfc3394 (be_bytes 4 ivPrefix ++ be_bytes 4 (N.of_nat (length data))) (blocks8 n P).
 End KWP.
+
+(* ---- the API as a function of the wrapping-key BYTES: NewKWP followed by
+   Wrap / Unwrap.  None = NewKWP returned an error (no primitive exists).
+   AESenc / AESdec : key -> block -> block are the AES block functions
+   (crypto/aes), consulted only for key sizes NewKWP lets through. ---- *)
+Section KWPApi.
+  Variable AESenc AESdec : bytes -> bytes -> bytes.
+
+  Definition kwp_api_wrap (kek data : bytes) : option (outcome bytes) :=
+    if kwp_key_ok (length kek) then Some (kwp_wrap (AESenc kek) data) else None.
+
+  Definition kwp_api_unwrap (kek data : bytes) : option (outcome bytes) :=
+    if kwp_key_ok (length kek) then Some (kwp_unwrap (AESdec kek) data) else None.
+End KWPApi.
